@@ -6,6 +6,10 @@
 /// pins): `$name` = longest run of [0-9A-Za-z_]; `${...}` = anything up to the
 /// next `}` that is valid UTF-8; a name that parses as an integer is a group
 /// number.  Returns (name start, name end, end of the whole reference).
+fn ref_letter(b: u8) -> bool {
+    (b >= b'0' && b <= b'9') || (b >= b'a' && b <= b'z') || (b >= b'A' && b <= b'Z') || b == b'_'
+}
+
 fn ref_cap_ref(rep: &[u8]) -> Option<(usize, usize, usize)> {
     if rep.len() <= 1 || rep[0] != b'$' {
         return None;
@@ -26,7 +30,7 @@ fn ref_cap_ref(rep: &[u8]) -> Option<(usize, usize, usize)> {
     }
     let start = 1;
     let mut e = start;
-    while e < rep.len() && is_valid_cap_letter(&rep[e]) {
+    while e < rep.len() && ref_letter(rep[e]) {
         e += 1;
     }
     if e == start {
@@ -73,7 +77,7 @@ fn c19_find_cap_ref_body(mode: u8) {
             kani::assume(braced && len > 2 && buf[2] != b'}');
             let mut i = 2;
             while i < N {
-                kani::assume(i >= len || buf[i] == b'}' || is_valid_cap_letter(&buf[i]));
+                kani::assume(i >= len || buf[i] == b'}' || ref_letter(buf[i]));
                 i += 1;
             }
         }
@@ -109,7 +113,7 @@ fn c19_find_cap_ref_body(mode: u8) {
             let mut odd = e == s;
             let mut i = s;
             while i < e {
-                if !is_valid_cap_letter(&rep[i]) {
+                if !ref_letter(rep[i]) {
                     odd = true;
                 }
                 i += 1;
